@@ -22,11 +22,17 @@ Spec(e) ==
              ow1 == [x \in al2 |-> IF x = e.n THEN [y \in {} |-> "1"] ELSE ow[x]]
              par1 == [x \in al2 |-> IF x = e.n THEN Nil ELSE pre.par[x]]
              ch1 == [x \in al2 |-> IF x = e.n THEN <<>> ELSE pre.ch[x]]
+             ok == AcceptedKws(ow1, tg, e.n, e.a2)
              st == IdealSP(par1, ch1, e.n, e.a1[2]) IN
-         [alive |-> al2, tgt |-> tg, par |-> st.par, ch |-> st.ch, reads |-> Reads(SetAll(ow1, tg, e.n, e.a2), tg, al2, Keys), exc |-> Nil]
+         IF ok = e.a2
+         THEN [alive |-> al2, tgt |-> tg, par |-> st.par, ch |-> st.ch, reads |-> Reads(SetAll(ow1, tg, e.n, e.a2), tg, al2, Keys), exc |-> Nil]
+         ELSE [alive |-> al, tgt |-> pre.tgt, par |-> pre.par, ch |-> pre.ch,
+               reads |-> Reads([x \in al |-> SetAll(ow1, tg, e.n, ok)[x]], pre.tgt, al, Keys), exc |-> AttrErr]
     [] e.act = "setattr" ->
-         [alive |-> al, tgt |-> pre.tgt, par |-> pre.par, ch |-> pre.ch,
-          reads |-> Reads(Set(ow, pre.tgt, e.n, e.a1[1], e.a1[2]), pre.tgt, al, Keys), exc |-> Nil]
+         IF Refuses(ow, pre.tgt, e.n, e.a1[1])
+         THEN [alive |-> al, tgt |-> pre.tgt, par |-> pre.par, ch |-> pre.ch, reads |-> Reads(ow, pre.tgt, al, Keys), exc |-> AttrErr]
+         ELSE [alive |-> al, tgt |-> pre.tgt, par |-> pre.par, ch |-> pre.ch,
+               reads |-> Reads(Set(ow, pre.tgt, e.n, e.a1[1], e.a1[2]), pre.tgt, al, Keys), exc |-> Nil]
     [] e.act = "sp" ->
          LET r == RefuseSP(pre.par, e.n, e.a1[1], TRUE)
              st == IF r = Nil THEN IdealSP(pre.par, pre.ch, e.n, e.a1[1]) ELSE [par |-> pre.par, ch |-> pre.ch] IN
